@@ -202,8 +202,8 @@ func (n *Net) Dial(ctx context.Context, from, address string) (net.Conn, error) 
 	n.nextID++
 	id := n.nextID
 	n.mu.Unlock()
-	cl := &Conn{net: n, id: id, side: "c", node: from, peerNode: to, rwake: make(chan struct{}, 1)}
-	sv := &Conn{net: n, id: id, side: "s", node: to, peerNode: from, rwake: make(chan struct{}, 1)}
+	cl := &Conn{net: n, id: id, side: "c", node: from, peerNode: to, rwake: make(chan struct{}, 1), wwake: make(chan struct{}, 1)}
+	sv := &Conn{net: n, id: id, side: "s", node: to, peerNode: from, rwake: make(chan struct{}, 1), wwake: make(chan struct{}, 1)}
 	cl.peer, sv.peer = sv, cl
 	cl.local, cl.remote = addr{from + ":0"}, addr{address}
 	sv.local, sv.remote = addr{to + ":" + port}, addr{from + ":0"}
@@ -264,8 +264,8 @@ func (n *Net) Pipe(clientNode, serverNode string) (*Conn, *Conn) {
 	n.nextID++
 	id := n.nextID
 	n.mu.Unlock()
-	cl := &Conn{net: n, id: id, side: "c", node: clientNode, peerNode: serverNode, rwake: make(chan struct{}, 1)}
-	sv := &Conn{net: n, id: id, side: "s", node: serverNode, peerNode: clientNode, rwake: make(chan struct{}, 1)}
+	cl := &Conn{net: n, id: id, side: "c", node: clientNode, peerNode: serverNode, rwake: make(chan struct{}, 1), wwake: make(chan struct{}, 1)}
+	sv := &Conn{net: n, id: id, side: "s", node: serverNode, peerNode: clientNode, rwake: make(chan struct{}, 1), wwake: make(chan struct{}, 1)}
 	cl.peer, sv.peer = sv, cl
 	cl.local, cl.remote = addr{clientNode + ":0"}, addr{serverNode + ":1"}
 	sv.local, sv.remote = addr{serverNode + ":1"}, addr{clientNode + ":0"}
@@ -308,6 +308,9 @@ type Conn struct {
 	FailReadAt     int // 1-based Read call index that fails (0 = never)
 	FailWriteAt    int
 	StallWrites    bool // writes block until their deadline
+	SendCap        int  // >0: at most this many written-but-unread bytes (peer's receive window + local send buffer)
+	unread         int  // bytes written by this endpoint that the peer application has not read yet
+	wwake          chan struct{}
 	Blackhole      bool // written data is silently lost
 	ShortReads     bool
 	CloseCalls     int
@@ -373,6 +376,7 @@ func (c *Conn) Read(p []byte) (int, error) {
 			copy(p, c.rbuf[:n])
 			c.rbuf = c.rbuf[n:]
 			c.mu.Unlock()
+			c.peer.credit(n)
 			return n, nil
 		}
 		if c.rEOF {
@@ -426,36 +430,53 @@ func (c *Conn) Write(p []byte) (int, error) {
 		c.mu.Unlock()
 		return 0, os.ErrDeadlineExceeded
 	}
-	if c.StallWrites {
+	for c.StallWrites || (c.SendCap > 0 && c.unread > 0 && c.unread+len(p) > c.SendCap) {
+		// the peer does not read and the buffers are full: block until the
+		// write deadline (or until the connection is closed / drained)
 		var tc <-chan time.Time
 		var tm *time.Timer
 		if !c.wdl.IsZero() {
-			tm = time.NewTimer(c.wdl.Sub(now))
+			tm = time.NewTimer(c.wdl.Sub(time.Now()))
 			tc = tm.C
 		}
 		c.mu.Unlock()
-		c.net.S.Fault("stalled-write")
+		c.net.S.Fault("write-blocked-on-full-buffer")
+		timedOut := false
 		select {
+		case <-c.wwake:
 		case <-tc:
+			timedOut = true
 		case <-c.net.S.AbortCh():
 			c.net.S.ExitIfAborting()
 			return 0, net.ErrClosed
 		}
-		simrt.YieldMust("netwrite stalled " + c.Name())
+		if tm != nil {
+			tm.Stop()
+		}
+		simrt.YieldMust("netwrite blocked " + c.Name())
 		c.mu.Lock()
-		closed := c.closed
-		c.mu.Unlock()
-		if closed {
+		if c.closed {
+			c.mu.Unlock()
 			return 0, net.ErrClosed
 		}
-		return 0, os.ErrDeadlineExceeded
+		if c.broken != nil {
+			err := c.broken
+			c.mu.Unlock()
+			return 0, err
+		}
+		if timedOut || (!c.wdl.IsZero() && !time.Now().Before(c.wdl)) {
+			c.mu.Unlock()
+			return 0, os.ErrDeadlineExceeded
+		}
 	}
+	now = time.Now()
 	if c.rEOF {
 		// the peer's FIN has arrived: a later write meets a reset
 		c.mu.Unlock()
 		return 0, ErrPipe
 	}
 	data := append([]byte(nil), p...)
+	c.unread += len(p)
 	black := c.Blackhole
 	var lat time.Duration
 	if c.net.Latency != nil {
@@ -492,6 +513,7 @@ func (c *Conn) Close() error {
 		return nil
 	}
 	c.closed = true
+	c.wsignalLocked()
 	black := c.Blackhole || c.broken != nil
 	now := time.Now()
 	at := now
@@ -520,6 +542,43 @@ func (c *Conn) Close() error {
 	return nil
 }
 
+// credit is called by the peer endpoint when its application consumed n bytes.
+func (c *Conn) credit(n int) {
+	c.mu.Lock()
+	c.unread -= n
+	if c.unread < 0 {
+		c.unread = 0
+	}
+	c.mu.Unlock()
+	c.wsignal()
+}
+
+func (c *Conn) wsignalLocked() {
+	select {
+	case c.wwake <- struct{}{}:
+	default:
+	}
+}
+
+func (c *Conn) wsignal() {
+	select {
+	case c.wwake <- struct{}{}:
+	default:
+	}
+}
+
+// SetSendCapacity bounds the bytes this endpoint may have written without the
+// peer application reading them (0 = unbounded).
+func (c *Conn) SetSendCapacity(n int) {
+	c.mu.Lock()
+	c.SendCap = n
+	c.mu.Unlock()
+	c.wsignal()
+	if n > 0 {
+		c.net.S.Logf("fault sendcap %s %d", c.Name(), n)
+	}
+}
+
 func (c *Conn) LocalAddr() net.Addr  { return c.local }
 func (c *Conn) RemoteAddr() net.Addr { return c.remote }
 
@@ -528,6 +587,7 @@ func (c *Conn) SetDeadline(t time.Time) error {
 	c.rdl, c.wdl = t, t
 	c.mu.Unlock()
 	c.signal()
+	c.wsignal()
 	return nil
 }
 
@@ -543,6 +603,7 @@ func (c *Conn) SetWriteDeadline(t time.Time) error {
 	c.mu.Lock()
 	c.wdl = t
 	c.mu.Unlock()
+	c.wsignal()
 	return nil
 }
 
@@ -580,6 +641,7 @@ func (c *Conn) Cut() {
 		e.rbuf = nil
 		e.mu.Unlock()
 		e.signal()
+		e.wsignal()
 	}
 	c.net.S.Fault("cut")
 	c.net.S.Logf("fault cut c%d", c.id)
@@ -593,6 +655,7 @@ func (c *Conn) BreakLocal() {
 	}
 	c.mu.Unlock()
 	c.signal()
+	c.wsignal()
 	c.net.S.Fault("break-local")
 	c.net.S.Logf("fault break %s", c.Name())
 }
@@ -650,5 +713,6 @@ func (n *Net) CloseAll() {
 		c.closed = true
 		c.mu.Unlock()
 		c.signal()
+		c.wsignal()
 	}
 }
